@@ -9,6 +9,7 @@ import (
 	"bytes"
 	"fmt"
 
+	"github.com/pkg/errors"
 	"github.com/tendermint/iavl"
 )
 
@@ -71,12 +72,34 @@ func (t *Tree) Remove(key []byte) ([]byte, bool) {
 }
 
 func (t *Tree) SaveVersion() ([]byte, int64, error) {
+	next := t.Latest + 1
+	if old, ok := t.Saved[next]; ok {
+		// documented contract: re-saving an already saved version with identical content is idempotent, different content is an error
+		same := len(old) == len(t.Working)
+		for i := 0; same && i < len(old); i++ {
+			if !bytes.Equal(old[i].k, t.Working[i].k) || !bytes.Equal(old[i].v, t.Working[i].v) {
+				same = false
+			}
+		}
+		if !same {
+			return nil, next, fmt.Errorf("version %d was already saved to different hash", next)
+		}
+		t.Latest = next
+		return t.Hash(), t.Latest, nil
+	}
 	t.event()
-	t.Latest++
+	t.Latest = next
 	cp := make([]kv, len(t.Working))
 	copy(cp, t.Working)
 	t.Saved[t.Latest] = cp
 	return t.Hash(), t.Latest, nil
+}
+
+// LoadVersion: what a restarted process does: the working tree becomes the content saved at version v
+// (later versions stay on disk).
+func (t *Tree) LoadVersion(v int64) {
+	t.Latest = v
+	t.Working = append([]kv{}, t.Saved[v]...)
 }
 
 func (t *Tree) DeleteVersion(version int64) error {
@@ -84,7 +107,8 @@ func (t *Tree) DeleteVersion(version int64) error {
 		return fmt.Errorf("cannot delete latest saved version (%d)", version)
 	}
 	if _, ok := t.Saved[version]; !ok {
-		return iavl.ErrVersionDoesNotExist
+		// tendermint/iavl returns this error wrapped
+		return errors.Wrap(iavl.ErrVersionDoesNotExist, "")
 	}
 	t.event()
 	delete(t.Saved, version)
